@@ -317,7 +317,7 @@ func (u *Upstream) run(isResume bool) error {
 						DataPointGroups: dpg,
 					},
 				}
-				resultCh := make(chan *message.UpstreamChunkResult)
+				resultCh := make(chan *message.UpstreamChunkResult, 1)
 				u.mu.Lock()
 				u.upstreamChunkResultChs[chunk.StreamChunk.SequenceNumber] = resultCh
 				u.mu.Unlock()
@@ -481,7 +481,7 @@ func (u *Upstream) flush(ctx context.Context) error {
 		return err
 	}
 
-	resultCh := make(chan *message.UpstreamChunkResult)
+	resultCh := make(chan *message.UpstreamChunkResult, 1)
 	u.upstreamChunkResultChs[msgChunk.StreamChunk.SequenceNumber] = resultCh
 	go u.sendChunkAndWaitAck(ctx, msgChunk, resultCh)
 	return nil
@@ -665,17 +665,20 @@ func (u *Upstream) processDataIDAliases(aliases map[uint32]*message.DataID) {
 
 func (u *Upstream) processResult(ctx context.Context, result *message.UpstreamChunkResult) error {
 	u.mu.Lock()
-	defer u.mu.Unlock()
 	ch, ok := u.upstreamChunkResultChs[result.SequenceNumber]
+	if ok {
+		delete(u.upstreamChunkResultChs, result.SequenceNumber)
+	}
+	u.mu.Unlock()
 	if !ok {
 		return nil
 	}
+	// the channel has room for this one result even if its waiter already gave up (ack timeout)
 	select {
 	case <-ctx.Done():
 	case <-u.ctx.Done():
 	case ch <- result:
 	}
-	delete(u.upstreamChunkResultChs, result.SequenceNumber)
 	return nil
 }
 
